@@ -277,6 +277,11 @@ def _trace_failure_manager(context) -> None:
     orig_sync = fm._synchronize_workflows
 
     async def _synchronize_workflows(*a, **kw):
+        # `retry_requests` is built from a SET of job names: its order is arbitrary (string hashing); `case.sync_order` (a list of job
+        # names) picks one of the orders the real code can see, so both are exercised deterministically
+        order = STATE.get("sync_order")
+        if order and "retry_requests" in kw:
+            kw["retry_requests"] = sorted(kw["retry_requests"], key=lambda q: order.index(q.name) if q.name in order else len(order))
         try:
             return await orig_sync(*a, **kw)
         finally:
@@ -352,6 +357,8 @@ async def _build(case: dict, context, workflow, translator, dep: str, location):
         m = shape["m"]
         value = [await _file(context, location, f"payload-{i}") for i in range(m)]
         a = stage("a", {"out": await source("out", value)}, "out", "list")
+        if shape.get("deep"):       # two-level shared ancestors: a -> m -> b_i
+            a = stage("m", {"out": a.get_output_port("out")}, "out", "list")
         sc = workflow.create_step(cls=ScatterStep, name="/b-scatter")
         sc.add_input_port("out", a.get_output_port("out"))
         sc.add_output_port("out", workflow.create_port())
@@ -366,6 +373,8 @@ async def _build(case: dict, context, workflow, translator, dep: str, location):
     if shape["kind"] == "diamond":
         value = await _file(context, location, "payload-diamond")
         a = stage("a", {"out": await source("out", value)}, "out", "file")
+        if shape.get("deep"):       # two-level shared ancestors: a -> m -> b1, b2
+            a = stage("m", {"out": a.get_output_port("out")}, "out", "file")
         b1 = stage("b1", {"out": a.get_output_port("out")}, "out", "file")
         b2 = stage("b2", {"out": a.get_output_port("out")}, "out", "file")
         c = translator.get_execute_pipeline(command="lambda x : ('copy', 'file', x['l'].value)", deployment_names=[dep],
@@ -505,6 +514,7 @@ def run_case(case: dict) -> dict:
     logging.disable(logging.CRITICAL)
     _reset(case.get("plan", []))
     STATE["gates"] = [dict(g) for g in case.get("gates", [])]
+    STATE["sync_order"] = case.get("sync_order")
     root = case.get("root") or tempfile.mkdtemp(prefix="sfv-recov-")
     case = dict(case, root=root)
     try:
